@@ -51,6 +51,45 @@ let graph_case f =
     Buffer.contents buf
   | _ -> "BADCASE"
 
+let adj_string n nats g =
+  let buf = Buffer.create 256 in
+  Buffer.add_string buf " adj=";
+  for k = 0 to n - 1 do
+    if g.alive nats.(k) then begin
+      let l = List.sort compare (List.map int_of_nat (eqv g nats.(k))) in
+      Buffer.add_string buf (Printf.sprintf "%d:%s;" k (String.concat "." (List.map string_of_int l)))
+    end
+  done;
+  Buffer.contents buf
+
+(* H: a history of edits and questions; every "?a:b" becomes the four Ask events of the model *)
+let history_case f =
+  match f with
+  | [_; ns; _layout; evs] ->
+    let n = int_of_string ns in
+    let nn = nat_of_int n in
+    let nats = Array.init (n + 1) nat_of_int in
+    let num s = nats.(int_of_string s) in
+    let parse ev =
+      let rest = String.sub ev 1 (String.length ev - 1) in
+      if ev.[0] = '?' then
+        (match split ':' rest with
+         | [a; b] -> List.map (fun k -> Ask (k, num a, num b)) [QIndirect; QDirect; QUtil; QCached]
+         | _ -> failwith "ask")
+      else if ev.[0] = 'x' then [Edit (Expire (num rest))]
+      else if ev.[0] = 'r' then [Edit (RemAll (num rest))]
+      else if String.contains ev '/' then
+        (match split '/' ev with [a; b] -> [Edit (RemEq (num a, num b))] | _ -> failwith "rem")
+      else (match split '-' ev with [a; b] -> [Edit (AddEq (num a, num b))] | _ -> failwith "add") in
+    let h = if evs = "-" then [] else List.concat_map parse (split ',' evs) in
+    let rs = run_history nn empty_graph [] h in
+    let rec groups = function
+      | a :: b :: c :: d :: t -> (ob a ^ ob b ^ ob c ^ ob d) :: groups t
+      | [] -> []
+      | _ -> failwith "answers" in
+    String.concat "," (groups rs) ^ adj_string n nats (final_graph nn empty_graph h)
+  | _ -> "BADCASE"
+
 let () =
   let ic = open_in Sys.argv.(1) in
   (try
@@ -60,6 +99,7 @@ let () =
        let r = try (match f with
            | "K" :: _ -> key_case f
            | "G" :: _ -> graph_case f
+           | "H" :: _ -> history_case f
            | _ -> "BADCASE") with e -> "MODELERROR(" ^ Printexc.to_string e ^ ")" in
        print_string r; print_newline ()
      done
